@@ -8,7 +8,7 @@ META = dict(
     category='model_checking',
     engine='GitPush',
     technique='TLA+ spec GitPush (state machine JjSet/JjDelete/OtherSet/OtherDelete/Fetch/Push(S) over local bookmark, remote-tracking bookmark, actual remote branch): TLC exhaustive reachability with step contracts and a ghost "unseen remote work" invariant + TLC-generated behaviours replayed against a local bare remote and a second clone driven by the real git CLI (S->I) + seeded random histories recorded and judged by TLC (I->S)',
-    text='TLC explores every reachable state of the model (2 bookmarks, 3 commits quick / 4 thorough, one commit known only to the other clone, unbounded depth) and checks on every transition PushOK (per pushed bookmark: the remote branch changes only if it is where jj last recorded it and only to the pushed value; a stale bookmark is rejected, reported, and jj\'s remote-tracking record and local bookmark stay untouched; the record moves only to what the remote really holds; when the lease holds the push goes through), FetchOK, and the ghost invariant that work the other clone pushed and jj has not fetched is never replaced. The real push path (classify_ref_push_action + git::push_refs, i.e. the real `git push --force-with-lease` subprocess) is bound both ways: every transition of a 1-bookmark model up to depth 5 (2 commits quick; 4 commits, plus 2 bookmarks depth 3, thorough) and simulated 6-step behaviours are replayed against a bare remote with a second clone that really pushes/deletes with the git CLI; seeded random histories (2 bookmarks, 5 commits, up to 10 steps, subsets pushed together) are recorded; TLC judges every observed step from the observed pre-state, including create/move/delete on both sides, the same value pushed by both, and deleting an already deleted branch. Exhaustive on the model, sampled on longer histories.',
+    text='TLC explores every reachable state of the model (2 bookmarks, 3 commits quick / 4 thorough, one commit known only to the other clone, unbounded depth) and checks on every transition PushOK (per pushed bookmark: the remote branch changes only if it is where jj last recorded it and only to the pushed value; a stale bookmark is rejected, reported, and jj\'s remote-tracking record and local bookmark stay untouched; the record moves only to what the remote really holds; when the lease holds the push goes through), FetchOK, and the ghost invariant that work the other clone pushed and jj has not fetched is never replaced. The real push path (classify_ref_push_action + git::push_refs, i.e. the real `git push --force-with-lease` subprocess) is bound both ways: every transition of a 1-bookmark model up to depth 5 (2 commits quick; 4 commits, plus 2 bookmarks depth 3, thorough) and simulated 6-step behaviours are replayed against a bare remote with a second clone that really pushes/deletes with the git CLI; seeded random histories (2 bookmarks, 5 commits, up to 10 steps, subsets pushed together, every 5th with 70/140 fillers) are recorded; a many-refs dimension replays TLC-generated stale pushes (delete / fast-forward / other of an unseen remote position, 3-commit chain) together with 70 or 140 in-sync filler bookmarks that are all moved by the push, so that the modelled bookmark is passed to git after position 64 / 128 or first (kind-balanced seeded selection in quick, all 216 in thorough); TLC judges every observed step from the observed pre-state, including create/move/delete on both sides, the same value pushed by both, and deleting an already deleted branch. Exhaustive on the model, sampled on longer histories.',
     note='The installed git (2.39) lacks `git fetch --porcelain`, which jj\'s GitFetch requires (git >= 2.41), so the Fetch action is `git fetch --prune` by the git CLI followed by the real jj_lib::git::import_refs with origin auto-tracked; GitFetch::fetch itself is not exercised. Push is sequential with the other clone (an update landing between jj\'s lease computation and git\'s compare-and-swap is inside git itself). Local path transport, no hooks, no tags, bookmarks tracked. Trusted: TLC, the projection in harness/jjconf/src/bin/gitsync/push.rs (remote refs read from ref files and confirmed by `git update-ref --stdin verify` at every step).',
     design='4 C45',
 )
@@ -60,6 +60,42 @@ def classify(recs):
         pre = r["post"]
 
 
+def pick_many(behs, per_choice, seed):
+    """many-refs behaviours (each ends in a push of a stale bookmark): a seeded, kind-balanced
+    selection per filler choice; kind = what jj's update of the stale bookmark is relative to the
+    remote's actual position (delete / fast-forward / other).  per_choice=None keeps everything."""
+    import random
+    anc = {1: {1}, 2: {1, 2}, 3: {1, 2, 3}}       # MC_Chain3
+    groups = {}
+    for b in behs:
+        local = track = remote = 0
+        for st in b["steps"][:-1]:
+            p = st["post"]
+            local = p["local"][0][0] if len(p["local"][0]) == 1 else -1
+            track, remote = p["track"][0], p["remote"][0]
+        kind = "delete" if local == 0 else ("ff" if remote != 0 and local > 0 and remote in anc[local] and remote != local else "other")
+        groups.setdefault((b["fill"]["n"], b["fill"]["place"]), {}).setdefault(kind, []).append(b)
+    out = []
+    for key in sorted(groups):
+        kinds = groups[key]
+        rnd = random.Random(seed * 7919 + key[0] + len(key[1]))
+        for k in kinds.values():
+            rnd.shuffle(k)
+        if per_choice is None:
+            for k in sorted(kinds):
+                out += kinds[k]
+            continue
+        i, took = 0, 0
+        order = [k for k in ("delete", "ff", "other") if k in kinds]
+        while took < per_choice and any(kinds[k] for k in order):
+            k = order[i % len(order)]
+            i += 1
+            if kinds[k]:
+                out.append(kinds[k].pop())
+                took += 1
+    return out
+
+
 def nontrivial(r, pre):
     if r["op"] == "Push":
         # some pushed bookmark whose remote branch is not where jj last recorded it
@@ -78,6 +114,7 @@ def run(ctx):
         f_neg = [(bug, inv, ex.submit(vf.tlc_mc, "MC_GitPush", "MC_GitPush_neg_" + bug, expect_violation=inv,
                                       workers=1, timeout=300)) for bug, inv in NEG]
         f_gen = [(g, ex.submit(vf.tlc_generate, "MC_GitPush", g, timeout=900)) for g in gens]
+        f_many = ex.submit(vf.tlc_generate, "MC_GitPush", "MC_GitPush_gen_many", timeout=900)
         f_sim = ex.submit(vf.tlc_generate, "MC_GitPush", "MC_GitPush_gen_sim", simulate="num=%d" % ctx.q(4, 25),
                           seed=ctx.seed, timeout=900)
         ctx.add_mc(f_mc.result(), cfg)
@@ -93,6 +130,12 @@ def run(ctx):
         b, gr = f_sim.result()
         ctx.add_mc(gr, "MC_GitPush_gen_sim")
         behs += maximal(b)
+        # many-refs dimension: stale pushes together with 70 / 140 in-sync filler bookmarks, modelled
+        # bookmark after position 64 / 128 ("after") or first ("before")
+        b, gr = f_many.result()
+        ctx.add_mc(gr, "MC_GitPush_gen_many")
+        many = pick_many(b, ctx.q(8, None), ctx.seed)
+        behs += many
     behf = ctx.path("behaviours.ndjson")
     with open(behf, "w") as f:
         for x in behs:
@@ -105,7 +148,7 @@ def run(ctx):
              "--out", ctx.path("replay%d.ndjson" % i)] for i in range(K)]
     n_rand = ctx.q(80, 600)
     jobs += [["push", "--random", n_rand // K, "--seed", ctx.seed * 1000 + i, "--maxsteps", 10, "--nb", 2,
-              "--otherpush", other, "--out", ctx.path("random%d.ndjson" % i)] for i in range(K)]
+              "--otherpush", other, "--fillevery", 5, "--out", ctx.path("random%d.ndjson" % i)] for i in range(K)]
     shards(ctx, jobs)
     trace = ctx.path("c45.ndjson")
     with open(trace, "w") as out:
@@ -149,11 +192,14 @@ def run(ctx):
             if not case_flagged.get(cur):
                 raise vf.ToolError("replay step %d differs from the model's expected state but the judge saw nothing: %s" % (i, x))
     ctx.cov["replay_mismatches"] = mism
-    seen, pushes, rejected = set(), 0, 0
+    seen, pushes, rejected, many_pushes, many_stale = set(), 0, 0, 0, 0
     for x, pre in classify(recs):
-        if x["op"] == "Push" and x["asked"]:
+        if x["op"] == "Push" and (x["asked"] or x.get("fillers")):
             pushes += 1
             rejected += 1 if x["rejected"] else 0
+            if x.get("fillers"):
+                many_pushes += 1
+                many_stale += 1 if any(pre["remote"][b - 1] != pre["track"][b - 1] for b in x["asked"]) else 0
         if nontrivial(x, pre):
             key = json.dumps([pre["local"], pre["track"], pre["remote"], x["op"], x.get("set"), x["post"]["local"],
                               x["post"]["track"], x["post"]["remote"]])
@@ -169,6 +215,9 @@ def run(ctx):
     ctx.cov["random_histories"] = n_cases - n_replayed
     ctx.cov["real_git_pushes_by_jj"] = pushes
     ctx.cov["pushes_with_a_rejection"] = rejected
+    ctx.cov["many_ref_behaviours_replayed"] = len(many)
+    ctx.cov["pushes_of_more_than_64_refs"] = many_pushes
+    ctx.cov["of_which_with_a_stale_modelled_bookmark"] = many_stale
     ctx.cov["exhaustive"] = True
     ctx.cov["exhaustive_domain"] = ("model: all reachable states, 2 bookmarks, %d commits (one known only to the other clone); "
                                     "binding: every transition of the 1-bookmark model (%s) up to depth 5%s" % (
@@ -178,7 +227,10 @@ def run(ctx):
                        "bookmark whose remote branch is not where jj last recorded it (stale, deleted, or already at the new "
                        "value), or a Fetch that has to merge a remote move into a locally moved bookmark; distinct by "
                        "(pre-state, action, post-state)")
+    if many_pushes == 0 or many_stale == 0:
+        raise vf.ToolError("the many-refs dimension was not exercised (%d pushes, %d stale)" % (many_pushes, many_stale))
     ctx.assumptions += [
+        "filler bookmarks of the many-refs dimension are in sync before every push and all moved by it (1 <-> 2); the recorder checks that each went through (FillersPushedOK)",
         "pushes by jj and by the other clone are sequential; the compare-and-swap inside `git push --force-with-lease` / receive-pack is git's",
         "Fetch = git CLI fetch + jj import_refs (installed git 2.39 < 2.41 required by jj's GitFetch)",
         "A5: the projection (commit id -> model number) is correct; remote refs read from ref files are confirmed by git itself at every step",
